@@ -68,7 +68,7 @@ func cmdScan(args []string) {
 	out := fs.String("out", "", "output prefix (mismatches)")
 	fs.Parse(args)
 	w := newShardWriter(*out, 1)
-	n, bad := 0, 0
+	n, bad, div := 0, 0, 0
 	for _, c := range readNDJSON(*in) {
 		var toks []gmars.VerifToken
 		for _, x := range c["in"].([]interface{}) {
@@ -118,14 +118,23 @@ func cmdScan(args []string) {
 		// on error the real scanner returns no symbols and no flag; only the error itself is compared then
 		ok := pan == "" && gotErr == wantErr && (wantErr || (gotFor == wantFor && strings.Join(got, "|") == strings.Join(want, "|")))
 		if !ok {
-			bad++
-			w.line(fmt.Sprintf(`{"in":%s,"want":%s,"wantfor":%v,"wanterr":%v,"got":%s,"gotfor":%v,"goterr":%v,"panic":%s,"case":%s}`,
-				mustJSON(c["in"]), strsJSON(want), wantFor, wantErr, strsJSON(got), gotFor, gotErr, jq(pan), mustJSON(c)))
+			// only a panic is a violation of the property (C05); another symbol table is a divergence between model and code
+			kind := "divergence"
+			if pan != "" {
+				kind = "property"
+				bad++
+			} else {
+				div++
+			}
+			if pan != "" || div <= 25 {
+				w.line(fmt.Sprintf(`{"kind":%q,"in":%s,"want":%s,"wantfor":%v,"wanterr":%v,"got":%s,"gotfor":%v,"goterr":%v,"panic":%s,"case":%s}`,
+					kind, mustJSON(c["in"]), strsJSON(want), wantFor, wantErr, strsJSON(got), gotFor, gotErr, jq(pan), mustJSON(c)))
+			}
 			if bad >= 40 {
 				break
 			}
 		}
 	}
 	w.close()
-	fmt.Printf(`{"cases":%d,"mismatches":%d}`+"\n", n, bad)
+	fmt.Printf(`{"cases":%d,"mismatches":%d,"divergences":%d}`+"\n", n, bad, div)
 }
